@@ -108,6 +108,7 @@ func normaliseAST(c *Ctx) int {
 				rest := unguard(append([]ast.Stmt{}, list[i+1:]...))
 				n++
 				if len(rest) == 0 {
+					c.NoopGuards = append(c.NoopGuards, is)
 					return list[:i]
 				}
 				// a declaration in the rest that is used after... there is no "after": the rest runs
